@@ -82,6 +82,54 @@ def run_shard(job):
     return out
 
 
+def _child(conn, job):
+    try:
+        conn.send(run_shard(job))
+    except BaseException as ex:  # noqa: BLE001
+        try:
+            conn.send(dict(idx=job[2], params=job[3], error=f"worker failed: {ex!r}", wall=0.0))
+        except Exception:  # noqa: BLE001
+            pass
+    finally:
+        conn.close()
+
+
+def run_all(jobs, njobs, shard_timeout):
+    """one forked process per shard (a crashed or hung worker cannot stall the run); at most njobs at a time"""
+    from multiprocessing.connection import wait
+
+    ctx = mp.get_context("fork")
+    pending = list(jobs)
+    running = {}   # conn -> (proc, job, t0)
+    results = []
+    while pending or running:
+        while pending and len(running) < njobs:
+            job = pending.pop(0)
+            parent, child = ctx.Pipe(duplex=False)
+            pr = ctx.Process(target=_child, args=(child, job), daemon=True)
+            pr.start()
+            child.close()
+            running[parent] = (pr, job, time.time())
+        ready = wait(list(running), timeout=1.0)
+        for conn in ready:
+            pr, job, t0 = running.pop(conn)
+            try:
+                results.append(conn.recv())
+            except (EOFError, OSError):
+                results.append(dict(idx=job[2], params=job[3], error=f"worker died without a result (exit code {pr.exitcode})", wall=time.time() - t0))
+            conn.close()
+            pr.join(timeout=5)
+        now = time.time()
+        for conn, (pr, job, t0) in list(running.items()):
+            if now - t0 > shard_timeout:
+                pr.kill()
+                running.pop(conn)
+                conn.close()
+                results.append(dict(idx=job[2], params=job[3], error=None, timeout=True, wall=now - t0, stats={}, violations=[], unknowns=[
+                    dict(label="shard timed out", reason=f"no result within {shard_timeout}s")], samples=[], reached=[], funcs=[], incomplete=True, known_seen={}))
+    return results
+
+
 def replay_file(path):
     """-> (status, text): status 'reproduced' | 'not-reproduced' | 'error'"""
     env = dict(os.environ, VERIF_REPO=REPO, PYTHONDONTWRITEBYTECODE="1", PYTHONHASHSEED="0")
@@ -124,14 +172,12 @@ def main(argv=None):
     # heavier shards first when the harness provides a weight
     if hasattr(H, "weight"):
         jobs.sort(key=lambda j: -H.weight(j[3]))
-    ctx = mp.get_context("fork")
-    with ctx.Pool(min(args.jobs, max(1, len(jobs))), maxtasksperchild=8) as pool:
-        results = list(pool.imap_unordered(run_shard, jobs))
+    results = run_all(jobs, args.jobs, shard_timeout=int(os.environ.get("VERIF_SHARD_TIMEOUT", 0)) or getattr(H, "SHARD_TIMEOUT", {}).get(args.tier, 1500))
     results.sort(key=lambda r: r["idx"])
     if os.environ.get("VERIF_VERBOSE"):
         for r in sorted(results, key=lambda r: -r["wall"])[:40]:
             st = r.get("stats") or {}
-            print(f"  shard {r['idx']:3d} wall={r['wall']:7.1f}s paths={st.get('paths')} calls={st.get('solver_calls')} solver_s={st.get('solver_s', 0):.1f} unk={st.get('unknown_paths')} {json.dumps(r['params'])}")
+            print(f"  shard {r['idx']:3d} {'TIMEOUT ' if r.get('timeout') else ''}wall={r['wall']:7.1f}s paths={st.get('paths')} calls={st.get('solver_calls')} solver_s={st.get('solver_s', 0):.1f} unk={st.get('unknown_paths')} {json.dumps(r['params'])}")
 
     agg = {}
     violations, unknowns, samples, reached, funcs, errors, incomplete = [], [], [], set(), set(), [], 0
